@@ -12,7 +12,8 @@ EVIDENCE = dict(
          "contexts (stand-alone synth, inside a project, Module.clone). TLC checks loaded = Norm(original) recursively, "
          "loaded = Read(bytes), bytes = Write(original) incl. exactly 5 + n CVALs and labels only for exposed controllers. "
          "Also: values beyond nominal ranges behind the embedded project, chains through nested MetaModules, twin MetaModules with "
-         "identical embedded projects edited after a load, four nesting levels. non-trivial = n > 0 or an embedded module.",
+         "identical embedded projects edited after a load, four nesting levels. non-trivial = n > 0 or an embedded module."
+         " Foreign forms of the MetaModule section (64 / 27 mappings, labels without terminating NUL) at every depth are judged by the spec's reader; padded mapping slots are then edited in place one at a time (C06-style edit events).",
     explanation="RVFormat's MetaModule section (recursive Write/Read, target-dependent stored form of user controller values)")
 
 
